@@ -174,6 +174,18 @@ func fileFieldIn(fi *FuncInfo, e ast.Expr, depth int) string {
 	return field
 }
 
+// mentionsFileField: does the function body select the given field of a model.File value?
+func mentionsFileField(fi *FuncInfo, field string) bool {
+	found := false
+	ast.Inspect(fi.Decl.Body, func(n ast.Node) bool {
+		if sel, ok := n.(*ast.SelectorExpr); ok && sel.Sel.Name == field && fileFieldIn(fi, sel, 0) == field {
+			found = true
+		}
+		return !found
+	})
+	return found
+}
+
 func byteOrderOf(info *types.Info, c *ast.CallExpr) (order, method string) {
 	sel, ok := c.Fun.(*ast.SelectorExpr)
 	if !ok {
@@ -231,7 +243,17 @@ func propC19(p *Prog, r *Report) {
 			row, ok := tab[fld]
 			cons := fn + "#" + fld
 			if !ok {
-				r.Viol("C19.a", cons, p.pos(mar.Decl), fmt.Sprintf("%s side has no layout row for field %s", side, fld))
+				// a field the function never mentions is certainly not stored / restored; one it mentions in a form
+				// the layout extraction does not follow (a cursor object, a loop over the ids) is not decided
+				owner := mar
+				if side == "reader" {
+					owner = unm
+				}
+				if mentionsFileField(owner, fld) {
+					r.Undecided("C19.a", cons, p.pos(owner.Decl), fmt.Sprintf("the %s side handles field %s in a form the layout extraction does not follow", side, fld))
+				} else {
+					r.Viol("C19.a", cons, p.pos(owner.Decl), fmt.Sprintf("%s side has no layout row for field %s", side, fld))
+				}
 				continue
 			}
 			if row.Enc == "unrecognised" {
